@@ -111,6 +111,19 @@ def build_double_carry_udp(rng, v6=True):
                 uh, ue = build_udp(rng, bytes(pl), src, dst, v6=v6, dport=dport, correct=True, sport=sport)
                 return ih + uh + bytes(pl), ie + ue, bytes(pl)
 
+def build_double_carry_ipv4(rng):
+    """an IPv4/UDP packet whose HEADER checksum sum needs a second fold ((S & 0xffff) + (S >> 16) >= 0x10000):
+    (bytes, expected fields, payload bytes)"""
+    while True:
+        pl = bytes(rng.randrange(256) for _ in range(rng.randrange(0, 16)))
+        for ident in rng.sample(range(65536), 400):
+            ih, ie, src, dst = build_ipv4(rng, bytes(8) + pl, 17, True, ident=ident)
+            words = ih[:10] + b'\x00\x00' + ih[12:]
+            S = sum(struct.unpack('!10H', words))
+            if (S & 0xffff) + (S >> 16) >= 0x10000:
+                uh, ue = build_udp(rng, pl, src, dst, v6=False, dport=rng.choice([1000, 2000]), correct=True)
+                return ih + uh + pl, ie + ue, pl
+
 # ------------------------------------------------------------------ CoAP (RFC 7252 §3, §3.1)
 
 def coap_ext(v):
